@@ -263,6 +263,8 @@ package task
 //@   site execute#1 requires h == ""                                                                   [C06]
 //@   site execute#2 requires h != "" && !ok                                                            [C06]
 //@   site execute#2 ghost set execOK(h) if result == nil
+//@   site (Context).Done#1 requires recv == otherExecutionCtx && ok && h != ""                        [C01,C06]
+//@   site recv#1 requires ok    -- a later caller blocks until the registered execution is done       [C01,C06]
 //@   site recv#1 requires semLimited() ==> tok == 0                                                    [C07]
 //@   site recv#1 requires notAncestor(h)                                                               [C07]
 //@   ensures result == nil && h != "" ==> execOK(h)                                                   [C01,C06]
